@@ -86,14 +86,21 @@ Section Spec.
   (* C03, second sentence: the produced value does not conform to the return annotation *)
   Definition c03_result_bad (f : fn) (v : value) : bool := bad (f_ret f) v.
 
-  (* C04: a conforming keyword call: CPython accepts it, no positional argument written by the caller,
+  (* every declared parameter that has a name is passed by keyword (or left to its default): positional values
+     written by the caller, if any, all land in *args *)
+  Definition named_by_keyword (f : fn) (b : binding) : bool :=
+    forallb (fun ns => match find_param (fst ns) (declared f), snd ns with
+                       | Some _, BOne (SArg _) => false
+                       | _, _ => true
+                       end) b.
+
+  (* C04: a conforming keyword call: CPython accepts it, no declared parameter is passed positionally,
      every declared parameter is annotated and every supplied value conforms *)
   Definition c04_call_ok (f : fn) (c : call) : bool :=
-    is_nil (c_args c)
-    && match twin_binding f c with
-       | Ok b => forallb (fun av => good (fst av) (snd av)) (supplied_of f c b)
-       | Raise _ => false
-       end
+    match twin_binding f c with
+    | Ok b => named_by_keyword f b && forallb (fun av => good (fst av) (snd av)) (supplied_of f c b)
+    | Raise _ => false
+    end
     && forallb (fun p => match p_ann p with Some a => supported ctx a | None => false end) (declared f)
     && match f_ret f with Some a => supported ctx a | None => false end.
   Definition c04_result_ok (f : fn) (r : outcome value) : bool :=
